@@ -292,6 +292,12 @@ func init() {
 		}
 		U := c06Universe
 		c.RunSched(c06Conc(c, "conc3-inflight-eviction-limit1", 1, [][]c06Key{{U[0]}, {U[8]}, {U[5], U[2]}}, vsched.Bounds{Preempt: pre, Tick: 0, Data: -1, Total: -1}))
+		// a key requested again while other keys push its entry out: the request that already holds the (complete) entry is
+		// answered from it or fetches again — "a dropped key is simply fetched again"
+		c.RunSched(c06Conc(c, "conc3-hit-vs-eviction-limit1", 1, [][]c06Key{{U[0], U[0]}, {U[8]}, {U[5]}}, vsched.Bounds{Preempt: pre, Tick: 0, Data: -1, Total: -1}))
+		// two clients hitting one resident key while a third key arrives in the same shard (explored again on the race build:
+		// a hit re-links the shard's recency list, which plain schedule enumeration cannot interleave)
+		c.RunSched(c06Conc(c, "conc3-hits-same-shard-limit2", 2, [][]c06Key{{U[0], U[0]}, {U[0], U[0]}, {U[8]}}, vsched.Bounds{Preempt: pre, Tick: 0, Data: -1, Total: -1}))
 		c.RunSched(c06Conc(c, "conc3-inflight-eviction-limit2", 2, [][]c06Key{{U[0]}, {U[8], U[3]}, {U[5], U[2]}}, vsched.Bounds{Preempt: pre, Tick: 0, Data: -1, Total: -1}))
 		for _, limit := range []int{1, 2, 3} {
 			c.runBFS(fmt.Sprintf("lru-bfs-limit%d", limit), &c11Sys{limit: limit, keys: []string{"GET a.com /a", "GET a.com /b", "GET a.com /c", "GET a.com /d"}}, depth, nil)
